@@ -11,7 +11,7 @@ import vlib.sim  # noqa: F401  (silences UnusedElaboratable)
 
 RULE = ("One of 12 component classes is drawn, then its parameters (well-typed, ranges include "
         "boundary and invalid values; CSR layouts unaligned/padded with every sharing limit). The "
-        "component is constructed and elaborated three times to RTLIL under a 60 s watchdog. "
+        "component is constructed and elaborated three times to RTLIL under a watchdog of 60 s CPU time. "
         "Non-trivial = construction accepted, all three elaborations ran, and the component has >= 2 "
         "sub-objects (registers, windows, initiators, sources, pins, fields). Distinct = canonical JSON.")
 BUDGET = {"quick": (16, 400), "thorough": (16, 6000)}
@@ -79,15 +79,22 @@ def metadata(comp):
 def check(spec, stats):
     cls = spec["cls"]
     stats.label("cls:" + cls)
-    old = signal.signal(signal.SIGALRM, _alarm)
-    signal.alarm(WATCHDOG_S)
+    # the watchdog counts CPU time of this process, not wall-clock time: a loaded machine must not
+    # turn a slow elaboration into a verdict
+    import time
+    old = signal.signal(signal.SIGVTALRM, _alarm)
+    signal.setitimer(signal.ITIMER_VIRTUAL, WATCHDOG_S)
+    t0 = time.process_time()
     try:
         _check(spec, stats, cls)
     except _Timeout:
-        raise Violation(f"C19/timeout/{cls}", f"no termination within {WATCHDOG_S}s")
+        raise Violation(f"C19/timeout/{cls}", f"no termination within {WATCHDOG_S}s of CPU time")
     finally:
-        signal.alarm(0)
-        signal.signal(signal.SIGALRM, old)
+        signal.setitimer(signal.ITIMER_VIRTUAL, 0)
+        signal.signal(signal.SIGVTALRM, old)
+        dt = time.process_time() - t0
+        stats.label("case_cpu>10s", dt > 10)
+        stats.label("case_cpu>30s", dt > 30)
 
 
 def _check_packed(spec, stats):
